@@ -434,9 +434,83 @@ def d5(ctx, prog):
     return n
 
 
+ORDER_KEPT = {'array', 'asarray', 'asanyarray', 'ascontiguousarray', 'astype', 'copy', 'list', 'tuple', 'ravel', 'flatten', 'reshape', 'int32', 'int64'}
+ORDER_LOST = {'unique', 'sort', 'sorted', 'set', 'frozenset', 'flip', 'flipud', 'reversed', 'argsort', 'roll', 'permutation', 'shuffle', 'fromkeys', 'union1d', 'intersect1d'}
+
+
+def d9(ctx, prog):
+    """the declared class list reaches the `partitions` attribute in the declared order: per-class outputs (template rows, counters,
+    static template scores) are indexed by position in that attribute, so sorting / deduplicating the declaration makes row i
+    something else than the class the caller listed at position i.  Rule: in every function of the distinguisher modules that
+    stores a `.partitions` attribute from a parameter, the stored value derives from the parameter through conversions only."""
+    n = 0
+    for modname in ('scared.distinguishers.partitioned', 'scared.distinguishers.mia', 'scared.distinguishers.template', 'scared.distinguishers.base'):
+        for f in prog.funcs_in(modname):
+            stores = []
+            for st in ast.walk(f.node):
+                if isinstance(st, ast.Assign) and len(st.targets) == 1 and isinstance(st.targets[0], ast.Attribute) and st.targets[0].attr == 'partitions':
+                    roots = [x.id for x in ast.walk(st.value) if isinstance(x, ast.Name) and x.id in f.params and x.id not in ('self', 'obj', 'cls')]
+                    if len(set(roots)) == 1 and not isinstance(st.value, ast.Name):
+                        # `obj.partitions = <expression over the parameter>`: judged like a rebinding of the parameter
+                        st = ast.copy_location(ast.Assign(targets=st.targets, value=ast.Name(id=roots[0], ctx=ast.Load())), st)
+                        st._expr = ast.copy_location(ast.Assign(targets=[ast.Name(id=roots[0], ctx=ast.Store())], value=[s_ for s_ in ast.walk(f.node) if isinstance(s_, ast.Assign) and s_.targets[0] is st.targets[0]][0].value), st)
+                        stores.append(st)
+                    elif isinstance(st.value, ast.Name) and st.value.id in f.params:
+                        stores.append(st)
+            for st in stores:
+                pname = st.value.id
+                n += 1
+                key = f'{f.key}::declared order of `{pname}`'
+                lost, unknown = None, None
+                for a in list(ast.walk(f.node)) + ([st._expr] if hasattr(st, '_expr') else []):
+                    if isinstance(a, (ast.Assign, ast.AugAssign)) and any(isinstance(t, ast.Name) and t.id == pname for t in (a.targets if isinstance(a, ast.Assign) else [a.target])):
+                        v = a.value
+                        if isinstance(a, ast.AugAssign):
+                            unknown = unknown or a
+                            continue
+                        cands = [v]
+                        if isinstance(v, ast.IfExp):
+                            cands = [x for x in (v.body, v.orelse) if not (isinstance(x, ast.Constant) and x.value is None)]
+                        for node in cands:
+                          while True:
+                              if isinstance(node, ast.Name):
+                                  if node.id != pname:
+                                      unknown = unknown or a
+                                  break
+                              if isinstance(node, ast.Call):
+                                  nm = norm(node.func).split('.')[-1]
+                                  inner = node.func.value if isinstance(node.func, ast.Attribute) and not norm(node.func.value).lstrip('_') in ('np', 'numpy') else (node.args[0] if node.args else None)
+                                  if nm in ORDER_LOST:
+                                      lost = lost or a
+                                      break
+                                  if nm not in ORDER_KEPT or inner is None:
+                                      unknown = unknown or a
+                                      break
+                                  node = inner
+                                  continue
+                              if isinstance(node, ast.Subscript) and isinstance(node.slice, ast.Slice) and node.slice.lower is None and node.slice.upper is None and node.slice.step is None:
+                                  node = node.value
+                                  continue
+                              unknown = unknown or a
+                              break
+                    if isinstance(a, ast.Expr) and isinstance(a.value, ast.Call) and isinstance(a.value.func, ast.Attribute) and isinstance(a.value.func.value, ast.Name) \
+                            and a.value.func.value.id == pname and a.value.func.attr in ('sort', 'reverse'):
+                        lost = lost or a
+                if lost is not None:
+                    ctx.fail('C12-D9', key, f'`{norm(lost)[:80]}` reorders / deduplicates the declared classes before they are stored: row i of the per-class outputs (templates, counters, static '
+                             'template scores) is no longer the class the caller declared at position i', f.where(lost))
+                elif unknown is not None:
+                    ctx.undecided('C12-D9', key, f'cannot tell whether `{norm(unknown)[:80]}` keeps the declared order', f.where(unknown))
+                else:
+                    ctx.ok('C12-D9', key, 'the declared classes are stored as given (conversions only)', f.where(st))
+    ctx.floor('functions storing the declared classes', n, 1)
+
+
 def run(ctx, prog):
     from .. import universe as _uni0
     _uni0.inline_base_entry_points(ctx, prog)
+    ctx.rule('C12-D9', 'the declared class list is stored in the declared order (conversions only, no sort / unique): per-class outputs are indexed by position in it')
+    d9(ctx, prog)
     ctx.rule('C12-D1', 'lookup table: -1 fill, table[values[i]] = i over all declared values, plain table[x] lookup; _accumulate receives the lookup output on every accepted path')
     ctx.rule('C12-D2', 'sentinel-capable values are guarded before index use; template rows are selected by class position')
     ctx.rule('C12-D3', 'per-class outputs are built by enumerate(self.partitions) and indexed by position')
